@@ -48,7 +48,9 @@ def mutation(draw, spec, serial=0):
     if op['t'] != 'origin' and len(origins) >= 2:
         kinds.append('origin')
     if op['t'] == 'channel' and op.get('data') and spec['write'].get('source') == 'dict' and not op.get('cast'):
-        kinds += ['data', 'data']
+        kinds += ['data', 'data-same-type', 'data-same-type']
+    if op['t'] == 'channel' and op.get('data'):
+        kinds += ['cast']
     if not kinds:
         return {'kind': 'none', 'op': j}
     kind = draw(st.sampled_from(kinds))
@@ -60,6 +62,28 @@ def mutation(draw, spec, serial=0):
         m['v'] = draw(st.sampled_from(NUMBER_POOL)) if a.kind in ('num', 'fdoubl') else draw(st.sampled_from(TEXT_POOL))
     elif kind == 'rename':
         m['name'] = 'FRESH-' + str(serial)
+    elif kind == 'data-same-type':
+        # other values, same dtype and shape: only values derived from the data (index statistics) may change
+        m['kind'] = 'data'
+        d = op['data']
+        mode = draw(st.integers(0, 2))
+        if mode == 0:
+            m['data'] = {'dt': d['dt'], 'shape': d['shape'], 'pat': [draw(st.integers(0, 60)) * 2 + 1, draw(st.integers(0, 255))]}
+        else:
+            import numpy as np
+            n = 1
+            for k in d['shape']:
+                n *= k
+            step = draw(st.sampled_from([1, 2, 3]))
+            vals = (np.arange(n) * step if mode == 1 else np.cumsum(np.arange(n) % 3 + 1)).reshape(d['shape'])
+            arr = vals.astype(np.dtype(d['dt']))
+            m['data'] = {'dt': d['dt'], 'shape': d['shape'], 'hex': arr.tobytes().hex()}
+    elif kind == 'cast':
+        from vf.spec.strategies import well_defined_cast, DTYPE_NAME
+        c = well_defined_cast(draw, op['data']['dt'][1:], op['data'])
+        if c is None:
+            return {'kind': 'none', 'op': j}
+        m['cast'] = DTYPE_NAME[c]
     elif kind == 'data':
         rows = op['data']['shape'][0]
         width = draw(st.sampled_from([0, 0, 1, 2, 3]))
@@ -101,6 +125,12 @@ def histories(draw):
                 w['ocs'] = specs[k]['sul']['vrl'] + draw(st.integers(0, 50))
             if specs[k]['write'].get('source') == 'dict' and draw(st.integers(0, 3)) == 0:
                 w['partial_data'] = True
+            from vf.spec.strategies import min_rows
+            rows = min_rows(specs[k]['lfs'][0])
+            if rows > 1 and draw(st.integers(0, 2)) == 0:
+                f = draw(st.integers(0, rows - 1))
+                w['from'] = f
+                w['to'] = draw(st.integers(f + 1, rows))
             steps.append({'do': 'write', 'slot': k, 'w': w})
         elif c == 'mutate':
             k = draw(st.sampled_from(sorted(built)))
@@ -136,6 +166,8 @@ def apply_mutation_to_spec(spec, m):
         op['oref'] = {'$origin': m['to']}
     elif m['kind'] == 'data':
         op['data'] = m['data']
+    elif m['kind'] == 'cast':
+        op['cast'] = m['cast']
 
 
 def apply_mutation_to_objects(built, spec, m):
@@ -149,6 +181,9 @@ def apply_mutation_to_objects(built, spec, m):
         item.origin_reference = built.items[(0, m['to'])].origin_reference
     elif m['kind'] == 'data':
         pass      # the data are passed at write(); nothing to tell the objects
+    elif m['kind'] == 'cast':
+        import numpy as np
+        item.cast_dtype = getattr(np, m['cast'])
 
 
 def localise(a, b):
@@ -255,7 +290,9 @@ class C14(Property):
                 apply_mutation_to_spec(specs[k], m)
                 mutated = True
                 if m['kind'] == 'data' and k in written_slots:
-                    swapped.add(k)
+                    old_d = case['specs'][k]['lfs'][0]['ops'][m['op']]['data']
+                    if (m['data']['dt'], m['data']['shape'][1:]) != (old_d['dt'], old_d['shape'][1:]):
+                        swapped.add(k)
                 labels.append('mut:' + m['kind'])
             elif do == 'hc-write':
                 r = B.build_and_write(HC_SPEC, ctx.path(), ctx.scratch)
@@ -270,7 +307,7 @@ class C14(Property):
                 w = step.get('w') or {}
                 net = copy.deepcopy(specs[k])
                 net['write'] = dict(net.get('write') or {})
-                for key in ('ics', 'ocs'):
+                for key in ('ics', 'ocs', 'from', 'to'):
                     if key in w:
                         net['write'][key] = w[key]
                 kw = B.write_kwargs(net)
